@@ -233,11 +233,11 @@ theorem viewSendRouteRefresh_success {req : Request} {s : Sess} {i : Nat} (hn : 
                 rw [writeOn_norm hn]
             · simp [hmem] at h
 
-/-- send/bin_update that answers `{"status": true}`: the octets given go out unchanged, nothing else happens -/
+/-- send/bin_update that answers `{"status": true}`: the octets given go out unchanged and are counted as one UPDATE -/
 theorem viewSendBinUpdate_success {req : Request} {s : Sess} {i : Nat} (hn : Norm s i)
     (h : (viewSendBinUpdate req s).1.success = true) :
     ∃ o b, req.body = .obj o ∧ o.bin = .bytes b ∧
-      viewSendBinUpdate req s = (ok .statusTrue, if b = [] then s else s.emit (.write i b)) := by
+      viewSendBinUpdate req s = (ok .statusTrue, if b = [] then s else (s.emit (.write i b)).bumpSent i incUpdates) := by
   unfold viewSendBinUpdate at h ⊢
   cases hb : req.body with
   | noJson => simp [hb] at h
